@@ -82,7 +82,7 @@ POOLS = {'index [$id, sect$num(4)]': ['index', 'index', 'sect0001', 'sect0002', 
 
 
 def gen_doc(r, template=None):
-    return docs.gen(r, parts=r.random() < 0.3, labels=True, refs=r.random() < 0.5, depth=r.choice([1, 2, 2]), maxsec=r.choice([3, 6, 12]), counters=False,
+    return docs.gen(r, grouped_heads=r.choice([0, 0.3]), parts=r.random() < 0.3, labels=True, refs=r.random() < 0.5, depth=r.choice([1, 2, 2]), maxsec=r.choice([3, 6, 12]), counters=False,
                     hostile_labels=r.choice([0, 0.4, 0.8]), hostile_pool=POOLS.get(template), adversarial=r.choice([0, 0, 0.3]), deep6=True, empty_titles=r.choice([0, 0, 0.15]), theorems=r.random() < 0.3, eqnarray=False, blocks=(1, 3),
                     cls=r.choice(['article', 'book']))
 
